@@ -1521,7 +1521,7 @@ pub fn run(ctx: &Ctx) {
     let inits = ctx.tier.pick(240u32, 4000u32);
     let sandboxes: Vec<u8> = ctx.tier.pick(vec![0u8], (0..SANDBOX_VARIANTS).collect());
     let full = ctx.tier == crate::run::Tier::Thorough;
-    let bad_libs: Vec<&str> = ctx.tier.pick(vec!["yup"], vec!["yup", "Zod", "", "none ", "valibot"]);
+    let bad_libs: Vec<&str> = ctx.tier.pick(vec!["yup", "Zod"], vec!["yup", "Zod", "NONE", "", "none ", "valibot"]);
     ctx.set_rule(&format!(
         "(a) {} tape-generated JSON documents (root object, nesting <= 5, Unicode/escaped strings incl. surrogate pairs, integers over i64/u64, decimals <= 17 significant digits, exponents; plugins absent/empty/others/old typegen) x tape-generated settings through save_to_tauri_config + from_tauri_config, and {} through the real `init`; \
          (b) precedence grid through the real `generate`: {} scenarios (flag subsets x file states x source conf/-c x {} sandbox naming variants), 2 runs each; (c) {} rejection scenarios. \
